@@ -6,6 +6,9 @@ import Pds.Model.Quotient
 import Pds.Model.Reservoir
 import Pds.Proofs.Hll
 import Pds.Props.C18
+import Pds.Props.C04
+import Pds.Props.C09
+import Pds.Props.C10
 /-!
 # C11 — memory is bounded by the configuration, not by the stream
 
@@ -114,5 +117,32 @@ theorem quotient_size {N : Nat} (t : Quotient.St N) : t.slots.size = N := by sim
 theorem reservoir_size {R : Type} {I : Reservoir.RngI R} (hI : Reservoir.Lawful I) {k : Nat} (hk : 0 < k)
     {rng : R} {n : Nat} {s : Reservoir.St R} (h : Reservoir.run I k rng n = some s) : s.res.size ≤ k := by
   rw [Pds.Props.C18.res_length hI hk h]; exact Nat.min_le_right _ _
+
+/-! ## Structures whose size bound is a theorem of another property -/
+
+/-- T-Digest (scale function K0, any ordered field): after any history the backlog holds at most
+`max_backlog_size` centroids, and after a read the digest holds fewer than `δ + 1` of them —
+`O(δ + max_backlog_size)` whatever the stream length. (K1: C04 `centroid_bound_K1`.) -/
+theorem tdigest_size_K0 {α : Type} [Field α] [LinearOrder α] [IsStrictOrderedRing α]
+    {δ : α} (hδ : 0 < δ) {mb : Nat} {ops : List (Pds.TDigest.Op α)} {s : Pds.TDigest.St α}
+    (h : Pds.TDigest.run (Pds.TDigest.k0 δ) (Pds.TDigest.new mb) ops = some s) :
+    s.backlog.length ≤ mb ∧ ((Pds.TDigest.nCentroids (Pds.TDigest.k0 δ) s).2 : α) < δ + 1 :=
+  ⟨(Pds.Props.C04.backlog_bound _ h).1, Pds.Props.C04.centroid_bound_K0 hδ h⟩
+
+/-- CMSHeap: both indexes hold at most `k` entries however long the stream is (C10 `heap_size`). -/
+theorem cmsheap_size {pos : Nat → List Nat} {k w d cmax : Nat} (hs : Pds.Proofs.Heap.Setup pos k w d)
+    {xs : List Nat} (hlen : xs.length ≤ cmax) {s : Pds.CmsHeap.St}
+    (hr : Pds.Proofs.Heap.run pos k w d cmax xs = some s) :
+    s.obj2count.length ≤ k ∧ (Pds.CmsHeap.iter s).length ≤ k := by
+  obtain ⟨h1, _, _, h4⟩ := Pds.Props.C10.heap_size hs hlen hr
+  have h := Pds.Props.C10.heap_size_dedup hs hlen hr
+  have : (Pds.CmsHeap.iter s).length ≤ k := by rw [h]; exact Nat.min_le_left _ _
+  exact ⟨by rw [← h4]; exact this, this⟩
+
+/-- LossyCounter: the documented logarithmic table size (C09 `size_bound`). -/
+theorem lossy_size {width : Nat} (hw : 1 ≤ width) (xs : List Nat) :
+    ((Pds.Props.C09.counter width xs).known.length : ℚ) ≤
+      width * ∑ i ∈ Finset.range ((xs.length + width - 1) / width), (1 : ℚ) / ((i : ℚ) + 1) :=
+  Pds.Props.C09.size_bound hw xs
 
 end Pds.Props.C11
